@@ -1,10 +1,16 @@
 #!/bin/sh
 # run every claimed check of MANIFEST.json once at the given tier (default quick); prints one status line each
+# usage: tools/run_all.sh [quick|thorough] [per-check timeout in seconds] [ids...]
 TIER=${1:-quick}
+LIMIT=${2:-3600}
+shift 2 2>/dev/null
 cd "$(dirname "$0")/.."
-for pid in $(python3 -c "import json;print(' '.join(c['property_id'] for c in json.load(open('MANIFEST.json'))['checks']))"); do
+IDS="$@"
+[ -z "$IDS" ] && IDS=$(python3 -c "import json;print(' '.join(c['property_id'] for c in json.load(open('MANIFEST.json'))['checks']))")
+for pid in $IDS; do
   s=$(date +%s)
-  ./sx.sh check $pid --tier $TIER > /tmp/run_all_$pid.log 2>&1
+  timeout $LIMIT ./sx.sh check $pid --tier $TIER > /tmp/run_all_${TIER}_$pid.log 2>&1
   rc=$?
-  echo "$pid rc=$rc $(( $(date +%s) - s ))s $(tail -1 /tmp/run_all_$pid.log | cut -c1-150)"
+  pkill -f "[p]ython -m sx check $pid" 2>/dev/null
+  echo "$pid rc=$rc $(( $(date +%s) - s ))s $(grep -E '^OK|^INCONCLUSIVE|^VIOLATION' /tmp/run_all_${TIER}_$pid.log | tail -1 | cut -c1-150)"
 done
